@@ -112,7 +112,50 @@ def _file_route(h, path, Factory, counters, bad):
     return Factory.fromJsonFile(path)
 
 
+def _odd_string_case(i, rng, tier):
+    """Category / label / string-bag keys that only escape sequences can carry: an unpaired surrogate (what os.fsdecode
+    returns for an undecodable file name), NUL, quotes and backslashes, a line separator - through dict, string and file."""
+    hg = env.hg()
+    from histogrammar.defs import Factory
+
+    keys = ["caf\udce9.txt", "\ud800", "a\x00b", 'q"uo\\te', "line\u2028sep", "\U0001f600", "tab\there", ""]
+    k1, k2 = keys[(i // 50) % len(keys)], rng.choice(keys)
+    kind = ("Categorize", "Label", "UntypedLabel", "BagS", "CategorizeOfBag")[(i // 50) % 5]
+    if kind == "Categorize":
+        h = hg.Categorize(lambda d: d)
+    elif kind == "Label":
+        h = hg.Label(**{k1: hg.Count(), k2 + "_": hg.Count()})
+    elif kind == "UntypedLabel":
+        h = hg.UntypedLabel(**{k1: hg.Count(), k2 + "_": hg.Sum(lambda d: 1.0)})
+    elif kind == "BagS":
+        h = hg.Bag(lambda d: d, "S")
+    else:
+        h = hg.Categorize(lambda d: d, hg.Bag(lambda d: d, "S"))
+    failures = []
+    counters = {"odd_string_cases": 1}
+    wit = {"kind": kind, "keys": [ascii(k1), ascii(k2)]}
+    for d in (k1, k2, k1):
+        h.fill(d)
+    path = os.path.join(env.TMP, "c04-odd-%d.json" % os.getpid())
+    try:
+        doc = json.loads(json.dumps(h.toJson(), allow_nan=False))
+    except Exception as e:  # noqa: BLE001
+        return {"digest": C.digest("odd", kind, ascii(k1), ascii(k2)), "nontrivial": False, "failures": [C.fail(None, "toJson / json.dumps of a %s with the keys %s raised %s: %s" % (kind, wit["keys"], type(e).__name__, str(e)[:120]), **wit)], "counters": counters, "sets": {}}
+    for route, load in (("dict", lambda: Factory.fromJson(json.loads(json.dumps(doc)))), ("string", lambda: Factory.fromJsonString(h.toJsonString())), ("file", lambda: (h.toJsonFile(path), Factory.fromJsonFile(path))[1])):
+        try:
+            r = load()
+            rd = json.loads(json.dumps(r.toJson(), allow_nan=False))
+            counters["odd_string_routes"] = counters.get("odd_string_routes", 0) + 1
+            if rd != doc:
+                failures.append(C.fail(None, "reload via %s of a %s with the keys %s re-serialises differently: %s" % (route, kind, wit["keys"], ascii(C.fmt_diff(O.diff(doc, rd, 0.0, exact=True)))[:200]), **wit))
+        except Exception as e:  # noqa: BLE001
+            failures.append(C.fail(None, "round trip via %s of a %s with the keys %s raised %s: %s" % (route, kind, wit["keys"], type(e).__name__, ascii(str(e))[:120]), **wit))
+    return {"digest": C.digest("odd", kind, ascii(k1), ascii(k2)), "nontrivial": True, "failures": failures[:3], "counters": counters, "sets": {}, "sample": {"kind": "odd string keys", "aggregator": kind, "keys": wit["keys"]}}
+
+
 def run_case(i, rng, tier):
+    if i % 50 == 17:
+        return _odd_string_case(i, rng, tier)
     state = rng.getstate()
     res = _run(i, rng, tier, False)
     if res["failures"] and res.pop("bool_categories", False):
